@@ -166,7 +166,7 @@ func (k Key) ValidateChannel(ch *Channel) bool {
 
 	// Get the first bit, whether the key is the exact match or not
 	keyIsExactTarget := ((targetPath >> 23) & 1) == 1
-	if len(parts) < maxDepth || (keyIsExactTarget && len(parts) != maxDepth) {
+	if len(parts) < maxDepth || (keyIsExactTarget && (wc || len(parts) != maxDepth)) {
 		return false
 	}
 
